@@ -99,9 +99,17 @@ BuildMism(e) ==
           (IF e.total # exp_size THEN {"size.written"} ELSE {})
           \cup (IF e.vec.same # 1 THEN {"sinks.write_to_vec_differs"} ELSE {})
           \cup (IF e.slice.same # 1 \/ e.slice.ret # exp_size THEN {"sinks.write_to_slice_differs"} ELSE {})
-          \cup (IF e.slice.canary # 1 \/ e.short.canary # 1 THEN {"sinks.wrote_outside_slice"} ELSE {})
-          \* one byte too short: a space error that states the length really required
-          \cup (IF exp_size > 0 /\ (e.short.k # "Space" \/ e.short.req # exp_size) THEN {"sinks.space_error"} ELSE {})
+          \cup (IF e.slice.canary # 1 THEN {"sinks.wrote_outside_slice"} ELSE {})
+          \* every slice that is too short (0, 1, inside each part, one byte short): a space error that states the length
+          \* really required, nothing written outside, whatever was written is a prefix of the encoding
+          \cup UNION {LET s == e.shorts[i] IN
+                      (IF s[2] # "Space" THEN {"sinks.short_slice_accepted:" \o s[2]} ELSE IF s[3] # exp_size THEN {"sinks.space_error"} ELSE {})
+                      \cup (IF s[4] # 1 THEN {"sinks.wrote_outside_slice"} ELSE {}) \cup (IF s[5] # 1 THEN {"sinks.garbage_in_short_slice"} ELSE {})
+                      : i \in 1..Len(e.shorts)}
+          \* io::Write sink failing after k < size bytes: the fault surfaces as an Io error, nothing but a prefix was delivered
+          \cup UNION {LET s == e.faults[i] IN
+                      (IF s[2] # "io" THEN {"sinks.io_fault_lost:" \o s[2]} ELSE {}) \cup (IF s[4] # 1 THEN {"sinks.io_not_a_prefix"} ELSE {})
+                      : i \in 1..Len(e.faults)}
           \cup (IF e.big = 1
                 THEN \* 64 kB packets: length fields only (header bytes are logged)
                      LET ipoff == LinkLen(c) + VlanLen(c) IN
